@@ -6,7 +6,8 @@ Values in prefix notation: `I <int>` | `B T|F` | `S <hex>` | `L <n> v*` | `E <n>
 `O <cls.chain> <n> (<keyhex> v)*` (keys sorted).
 `set a|b|c <value>` stores an operand; `m <expr> T|F` evaluates one of
 `ab bc ab_c a_bc ea ae` with `allow_overwrite` T/F; `req <cls.chain> <fieldhex>*` declares
-required fields; `rt <value>` is `from_partial(to_partial(v))`. -/
+required fields; `rt <value>` is `from_partial(to_partial(v))`; `gp <uid> <namehex>` is
+`get_partial` of the class object `uid` named `name` and prints the uid of `__partial_src__`. -/
 open MetadorModel MetadorModel.Partial MetadorModel.Drv
 
 def parseInt (s : String) : Option Int :=
@@ -93,6 +94,7 @@ structure St where
   b : Option PVal := none
   c : Option PVal := none
   req : List (Cls × List String) := []
+  tab : Factory.Tab := {}
 
 def St.reqF (s : St) (c : Cls) : List String :=
   match s.req.find? (fun p => p.1 == c) with
@@ -147,6 +149,12 @@ def step (s : St) : List String → St × String
       if !v.wf then (s, "bad-op")
       else (s, showRes "rt" (fromPartial s.reqF (toPartial v)))
     | _ => (s, "bad-op")
+  | ["gp", u, nh] =>
+    match u.toNat?, unhexStr nh with
+    | some u, some n =>
+      let r := Factory.getPartial s.tab ⟨u, n⟩
+      ({ s with tab := r.1 }, s!"gp {r.2.src.uid}")
+    | _, _ => (s, "bad-op")
   | "legacy" :: o :: _ =>
     match s.a, s.b with
     | some a, some b => (s, showRes "legacy" (Legacy.mergeWith (o == "T") a b))
